@@ -452,8 +452,10 @@ def _requests_failed(prog, f, stmts):
             if outer is None:
                 outer = set(fg.atoms(stmts[0])) if stmts else set()
             extra = [a for a in fg.atoms(c) if a not in outer]
+            done = CANCELISH | frozenset(["failed", "succeeded"])
             extra = [a for a in extra if not (
-                a[0] == "notin" and isinstance(a[2], frozenset) and a[2] <= CANCELISH)]
+                a[0] == "notin" and isinstance(a[2], frozenset) and a[2] <= done
+                and "status" in str(a[1]))]
             if not extra:
                 return True
     return False
@@ -563,8 +565,10 @@ def _errors_consumed(prog, f, name, after):
             except NotFoldable:
                 continue
             extra = [a for a in fg.atoms(c) if a not in base_atoms]
+            done = CANCELISH | frozenset(["failed", "succeeded"])
             extra = [a for a in extra if not (
-                a[0] == "notin" and isinstance(a[2], frozenset) and a[2] <= CANCELISH)]
+                a[0] == "notin" and isinstance(a[2], frozenset) and a[2] <= done
+                and "status" in str(a[1]))]
             if not extra:
                 return True, "consumed under the guard on %s" % sorted(derived)[0]
     return False, "errors are logged but the workflow is not failed under the same condition"
@@ -590,6 +594,7 @@ def rule_X1(ctx):
                 engine_attrs.add(name)
         todo = [ci.methods["evaluate"]]
         done = set()
+        call_sites = {}   # helper qualname -> [(caller FuncInfo, call node)]
         while todo:
             f = todo.pop()
             if f.qualname in done:
@@ -608,6 +613,7 @@ def rule_X1(ctx):
                     m = prog.lookup_method(ci, n.func.attr)
                     if m is not None and m.cls is ci:
                         todo.append(m)
+                        call_sites.setdefault(m.qualname, []).append((f, n))
                     if m is not None:
                         continue
                 if not _is_engine_call(n, f.params[0], engine_attrs, engine_locals):
@@ -621,6 +627,11 @@ def rule_X1(ctx):
                     continue
                 inst = (f.qualname, norm_src(n))
                 ok, why = _wrapped(prog, f, fg, n)
+                if not ok and "outside any try" in why and call_sites.get(f.qualname):
+                    # a helper that is only ever called from inside the wrapping try
+                    sites = call_sites[f.qualname]
+                    if all(_wrapped(prog, cf, FuncGuards(prog, cf), cn)[0] for cf, cn in sites):
+                        ok, why = True, ""
                 if ok:
                     res.holds(inst)
                 else:
